@@ -10,10 +10,13 @@ for b in re.split(r'(?=^NRESULT )', log, flags=re.M):
     sd, c, eq, tests, rc = m.group(1), m.group(2), int(m.group(3)), m.group(4), int(m.group(5))
     fi = re.search(r'failing input: (.*)', b) or re.search(r'correspondence broken at: (.*)', b) or re.search(r'broken obligation: (.*)', b)
     confirmed = eq == 0 and ('passed' in tests and 'failed' not in tests)
-    k = int(sd[-1])
+    k = int(sd[-1]) + (4 if os.environ.get('NEUTRAL_ROUND') == '2' and c in ('C07',) else 0)
     dst = '/verif/neutral/%s-%s' % (c, k)
     print(dst, 'confirmed' if confirmed else 'NOT-CONFIRMED eq=%d tests=%s' % (eq, tests), 'quiet' if rc == 0 else 'ALARM rc=%d' % rc, fi.group(1)[:160] if fi else None)
     if not confirmed:
+        continue
+    if not os.path.exists(os.path.join(sd, 'patch.diff')):
+        print('  source directory gone, skipped')
         continue
     os.makedirs(dst, exist_ok=True)
     for f in ('patch.diff', 'equiv.py'):
